@@ -60,6 +60,10 @@ def main(argv=None):
     # a sibling of the second text: the same names and, for every assignment, the same set of names read, but other formulas
     # (what a process computed for one model must not leak into the next model it loads)
     texts.append("states(V=1, f=0.5, F=2)\nparameters(R=8, r=3)\ni = F*f - R*r\ndV_dt = i*V\ndf_dt = F*f\ndF_dt = r*f + R*F\n")
+    # two components that read several of each other's quantities in different assignments (the sub-models of the split have
+    # several missing variables each, first read by different assignments)
+    texts.append('states("A", x=1, u=0.5)\nstates("B", y=2, v=1.5)\nparameters("A", ka=1)\nparameters("B", kb=2)\nexpressions("A")\n'
+                 'ia = ka*y\nja = v + x\ndx_dt = ia - x\ndu_dt = ja - u*kb\nexpressions("B")\nib = kb*x\njb = u - y\ndy_dt = ib - y\ndv_dt = jb + ia*ka\n')
     # models whose names come in pairs that differ only in case
     saved = list(lang.NAME_POOL)
     lang.NAME_POOL[:] = ["F", "f", "R", "r", "K", "k", "V", "v", "G", "g", "M", "m", "H", "h", "X", "x", "Y", "y", "W", "w", "N", "n", "Q", "q"]
@@ -88,7 +92,7 @@ def main(argv=None):
 
         shutil.rmtree(tmp, ignore_errors=True)
     # ---- a process that loads one text only must produce what the processes that loaded all texts produced for it
-    iso = [1, 3] + rng.sample(range(4, len(texts)), k=min(2 if a.tier == "quick" else 8, max(0, len(texts) - 4)))
+    iso = [1, 3] + rng.sample(range(5, len(texts)), k=min(2 if a.tier == "quick" else 8, max(0, len(texts) - 5)))
     for i in iso:
         tmp2 = tempfile.mkdtemp(prefix="gxc09i_")
         try:
